@@ -200,7 +200,7 @@ def cases(ctx, tier):
             mulcase('mpn_mul_fft_main', a, b, 0, shape, 'fft-main')
     # single-bit / sparse operands at FFT sizes: pointwise products hit the residue 2^(nw) = -1
     for _ in range(24 if quick else 300):
-        a = rng.randrange(F, F + 600); b = rng.choice([a, a, rng.randrange(max(F // 3 + 1, 2 * F - a + 1), a + 1)])
+        a = rng.randrange(F, F + 600); b = rng.choice([a, a, rng.randrange(min(a, max(F // 3 + 1, 2 * F - a + 1)), a + 1)])
         sh = rng.choice(['onebit', 'onebit', 'sparse'])
         if a == b and rng.getrandbits(1):
             mulcase('mpn_sqr', max(a, SF + 1), max(a, SF + 1), 1, sh, 'fft-sparse-sqr')
